@@ -2,7 +2,7 @@
 against DerivCheck.v; plus the twin run showing that a passing check does not alter the solve."""
 import sys
 
-sys.path.insert(0, "/repo")
+sys.path.insert(0, __import__("os").environ.get("VERIF_REPO", "/repo"))
 import numpy as np
 
 from ..common import cq, cb, cn, clist, cvec, copt
